@@ -636,9 +636,9 @@ KF2 = "C31-KF2"  # compile(): KeyError when the NULL (error) state is unreachabl
 KF3 = "C31-KF3"  # '|' of derivatives is not normalised (ACI): compile('(aa+)*') never terminates
 
 
-def loop_and_cat(ast):
+def has_loop(ast):
     ops = operators(ast)
-    return "cat" in ops and ("star" in ops or "plus" in ops)
+    return "star" in ops or "plus" in ops
 
 
 def no_dead_state(ast, alphabet):
@@ -657,15 +657,15 @@ def classify_failure(case, f):
          expression as the defective grammar reads it (or that grammar's 'Expected ) but got x').
     KF2: KeyError at compiler.py:compile for an expression with '.' whose language (as read by
          either grammar) has no dead state.
-    KF3: derivative-state explosion for an expression with a loop and a concatenation, where the
+    KF3: derivative-state explosion for an expression with a loop, where the
          runaway derivative is an alternation with repeated operands."""
     if f is None:
         return None
     pats = [case["pattern"]] if "pattern" in case else [p for _n, p in case["tokens"]]
     if f.kind == "explosion":
-        # KF3: a loop and a concatenation, and the runaway derivative repeats operands of '|'
+        # KF3: a loop, and the runaway derivative repeats operands of '|'
         try:
-            if f.info["duplicates"] > 0 and any(loop_and_cat(ref_parse(p)) for p in pats):
+            if f.info["duplicates"] > 0 and any(has_loop(ref_parse(p)) for p in pats):
                 return KF3
         except Unsupported:
             pass
@@ -841,8 +841,10 @@ def gen_ast(draw, size, flags, in_loop=False, level="top", ban=()):
     kinds = ["star", "plus", "opt", "alt", "alt"]
     if not (avoid_kf1 and level != "top"):
         kinds += ["cat", "cat", "cat"]
-    # KF3 exclusion: the expression has either no concatenation or no loop (ban is drawn per case)
-    kinds = [k for k in kinds if k not in ban]
+    # KF3 exclusion (ban is drawn per case): the expression has either no loop at all, or no
+    # concatenation and no loop inside a loop -- then every derivative is a sub-term and the missing
+    # normalisation of '|' cannot make the state set grow
+    kinds = [k for k in kinds if k not in ban and not ("nested" in ban and in_loop and k in ("star", "plus"))]
     k = draw(st.sampled_from(kinds))
     if k in UNARY:
         x = draw(gen_ast(size - 1, flags, in_loop or k != "opt", "elem", ban))
@@ -861,7 +863,7 @@ def gen_ast(draw, size, flags, in_loop=False, level="top", ban=()):
 
 def kf3_ban(flags):
     if flags[2]:
-        return st.sampled_from([("cat",), ("star", "plus")])
+        return st.sampled_from([("cat", "nested"), ("star", "plus")])
     return st.just(())
 
 
